@@ -64,6 +64,7 @@ from .. import kernelspy, sims, util
 
 ID = "C05"
 LEVEL = "exploration"
+TECHNIQUE = "runtime monitoring: exact-arithmetic executions of the compiled kernels on the full monomial basis (dyadic grids, 0 ulp) + noise-floor leg on random spacings; sub-kernels reached through the kernel registry"
 TITLE = "Finite-difference operators reproduce the continuous operators exactly on polynomials of degree <= 2"
 RULE = (
     "operator x generator option (reset_ghost_zone, field_type, filter options) x basis element (monomial "
